@@ -59,7 +59,7 @@ def r1_dunders(R) -> None:
         else:
             raise Unsupported(f'{q}: the key handed to the base is `{text(kv)[:80]}`')
         R.check(plain is not None and text(plain) == f'{RES}({key})', q, 'plain-key', 'a plain name key is resolved', 'a plain key is not passed through _resolve_alias'
-                + (f' (it becomes `{text(plain)[:50]}`)' if plain is not None else ''), where=f.fi.where)
+                + (f' (it becomes `{text(plain)[:50]}`)' if plain is not None else ''), where=f.fi.where, decided=True)
         ok = False
         shown = '<missing>'
         if tup is not None:
@@ -76,7 +76,7 @@ def r1_dunders(R) -> None:
                     and text(tup.args[0].generators[0].iter) == key and text(tup.args[0].elt) == f'{RES}({text(tup.args[0].generators[0].target)})':
                 shown = text(tup)[:70] + ' (the span index, too, is looked up in the alias table: a period label that happens to be an alias name is replaced by a variable name)'
         R.check(ok, q, 'tuple-key:' + shown[:60], 'in a (name, index) key only the name is resolved; the index part passes unchanged',
-                f'tuple keys become `{shown}`', where=f.fi.where)
+                f'tuple keys become `{shown}`', where=f.fi.where, decided=True)
     # _resolve_alias
     q = f'{A}._resolve_alias'
     fi = R.repo.func(q)
